@@ -37,6 +37,17 @@ CLAIMS.update({
  "C17": _chain("C17", "Focus: which module was called with which sender and payload, Ok/Err, rollback on module failure.", "6/C17"),
 })
 
+def _staking(what, design):
+    return dict(engine="staking", design=design,
+      technique="TLC exhaustive model checking of spec/Staking.tla (exact fixed-point shares/rewards on a time grid; invariants NoPanic, PoolSolvent, StakersConsistent, NoOverPay and action properties StakeMovesExactly, InvalidFails, PayoutTiming, WithdrawExact, SlashExact, SlashKeepsWhole; pre-repair transcriptions rejected) + replay of every (operation, state) on real StakeKeeper/DistributionKeeper comparing all observables after every operation",
+      text="Bounded exhaustive model checking of the staking design in TLA+ and exact conformance of the real keepers to it on a grid where the code's 18-digit arithmetic is exact: " + what,
+      note="Bounded: 1-2 delegators, 1-2 validators, amounts and fractions per configuration, up to 7 operations (reduced menu) / 3-4 (full menu); spec -> impl direction only; off-grid rounding is outside the model. Trusted: TLC, cosmwasm-std Decimal, bank keeper.")
+CLAIMS.update({
+ "C14": _staking("delegation/undelegation/redelegation accounting, payout timing, no panic; focus on balances, delegations, Ok/Err/panic.", "6/C14"),
+ "C15": _staking("pending rewards after every operation, withdrawals paying exactly what is shown to the withdraw address, others unaffected; design-level NoOverPay.", "6/C15"),
+ "C16": _staking("slash effects on delegations, pending unbondings (observed at payout) and accrued rewards, rejection of fractions above one and unknown validators; whole-token results accepted up to dropped sub-token remainders.", "6/C16"),
+})
+
 def main():
     props = [json.loads(l) for l in open(os.path.join(ROOT, "properties.jsonl"))]
     checks, na = [], []
